@@ -20,7 +20,7 @@ TRUSTED_BASE = [
 TRUSTED_BASE = TRUSTED_BASE + list(getattr(lexcheck, 'TRUSTED_BASE_LEX', []))
 ASSUMPTIONS = ['panic-freedom theorems cover only the modelled functions (json escaper, inline JSON, superscript exponents, i^y selector here; parser, codec, calendar, bignum, … in their own property files)']
 
-CFGS = [[a, b, c_, d, e] for a in (0, 1) for b in (0, 1) for c_ in (0, 1) for d in (0, 1, 2) for e in (0, 1)]
+CFGS = [[a, b, c_, d, e] for a in (0, 1) for b in (0, 1) for c_ in (0, 1, 2, 3) for d in (0, 1, 2) for e in (0, 1)]
 
 SUP = '⁰¹²³⁴⁵⁶⁷⁸⁹'
 
@@ -135,7 +135,7 @@ def check(c):
     r = c.rng
     c.rule = ('inputs: suite + manual corpus (read from /repo on this run), 1-3 token/char mutations of them, token soup, bounded nesting ramps, '
               'witnesses of repaired and listed findings; ops eval / preview / every-prefix preview+completion / completion / inline; '
-              'x 48 context configurations sampled; debug and release profiles. non-trivial = not a verbatim suite input; distinct by (op, cfg, text)')
+              'x 96 context configurations sampled (random source absent / mid-range / 0 / u32::MAX); debug and release profiles. non-trivial = not a verbatim suite input; distinct by (op, cfg, text)')
     ok = c.proof(['C06', 'C06Lex'], extra_targets=['Extract/XCrash.vo', 'Extract/XLex.vo'])
     if c.tier == 'thorough' and ok:
         c.thorough_proof(['C06', 'C06Lex'])
@@ -154,6 +154,9 @@ def check(c):
     texts += [('ramp', t) for t in ramps()]
     texts += extremes(r)
     texts += [('custom', t) for t in CUSTOM_TOKENS]
+    for d_ in ['d2', 'd3', 'd6', 'd10', 'd20', '2d6', 'd6 + 1', 'd4 * d4', 'd6 - d6', 'd6 kg', '(d6 + d6) / 2', '7 - d6']:
+        for f_ in ['roll %s', 'roll(%s)', 'sample %s', 'mean(%s)', '%s', 'roll(%s) + roll(%s)']:
+            texts.append(('dice', f_.replace('%s', d_)))
     for _ in range(300 if quick else 5000):
         texts.append(('custom', ' '.join(r.choice(CUSTOM_TOKENS + corpus.TOKENS[:60]) for _ in range(r.choice([1, 2, 3, 4])))))
     for _ in range(n_mut):
@@ -174,12 +177,14 @@ def check(c):
         cfg = r.choice(CFGS) if k != 'suite' else [0, 0, 0, 1, 0]
         if k == 'custom':
             cfg = cfg[:4] + [1]
+        if k == 'dice':
+            cfg = cfg[:2] + [r.choice([1, 2, 3, 3])] + cfg[3:]
         lines.append(sx([Sym('eval'), cfg, cps(t)])); meta.append(('eval', cfg, k, t))
     # previews / prefixes / completion / inline on a sample
     suite_part = [x for x in texts if x[0] == 'suite']
     if quick:
         suite_part = r.sample(suite_part, min(350, len(suite_part)))
-    sample = suite_part + [x for x in texts if x[0] == 'witness'] + [x for x in texts if x[0] in ('mutant', 'soup', 'ramp', 'extreme', 'extreme-heavy', 'custom')][: (900 if quick else 12000)]
+    sample = suite_part + [x for x in texts if x[0] == 'witness'] + [x for x in texts if x[0] in ('dice', 'mutant', 'soup', 'ramp', 'extreme', 'extreme-heavy', 'custom')][: (900 if quick else 12000)]
     for k, t in sample:
         cfg = r.choice(CFGS)
         if len(t) <= 120 and k != 'extreme-heavy' and sum(t.count(ch) for ch in SUP) <= 3:
@@ -200,7 +205,7 @@ def check(c):
     import time as _t
     for prof in profiles:
         _t0 = _t.time()
-        use = range(len(lines)) if (prof == 'debug' or not quick) else [i for i in range(len(lines)) if meta[i][2] in ('witness', 'ramp', 'suite', 'extreme', 'extreme-heavy', 'custom') or i % 6 == 0]
+        use = range(len(lines)) if (prof == 'debug' or not quick) else [i for i in range(len(lines)) if meta[i][2] in ('witness', 'ramp', 'suite', 'extreme', 'extreme-heavy', 'custom', 'dice') or i % 6 == 0]
         use = list(use)
         outs = c.impl('crash', [lines[i] for i in use], timeout=(8 if quick else 60), profile=prof, plain=True)
         crashed = [(i, o) for i, o in zip(use, outs) if is_crash(o)]
